@@ -155,7 +155,7 @@ MintQuoteAct ==
            accepted == MintQuoteCauses(S, a, Balance(S)) = {}
        IN /\ S' = IF accepted THEN NewMintQuote(S, Mq(nmq + 1), a) ELSE S
           /\ nmq' = nmq + 1      \* ids are given per request: a refused request leaves a ghost id behind
-          /\ Record([op |-> "mintquote", amt |-> amt, lock |-> lock])
+          /\ Record([op |-> "mintquote", amt |-> amt, lock |-> lock, x |-> [c |-> MintQuoteCauses(S, a, Balance(S)), v |-> << >>]])
   /\ UNCHANGED <<nb, nlq>>
 
 SettleAct ==
@@ -201,7 +201,8 @@ MintAct ==
               Ss == SyncMq(S, q, FALSE)
           IN /\ S' = IF MintCauses(S, a) = {} THEN MintEffect(Ss, a, << >>) ELSE Ss
              /\ nb' = IF useOld THEN nb ELSE nb + Len(amts)
-             /\ Record([op |-> "mint", q |-> q, outs |-> specs, sig |-> sig])
+             /\ Record([op |-> "mint", q |-> q, outs |-> specs, sig |-> sig,
+                        x |-> [c |-> MintCauses(S, a), v |-> <<sig, useOld, Len(amts), IF q \in DOMAIN S.mq THEN EffMq(S.mq[q]) ELSE "ghost">>]])
   /\ UNCHANGED <<nmq, nlq>>
 
 SwapAct ==
@@ -224,7 +225,8 @@ SwapAct ==
                  a == [ins |-> ins, outs |-> facts, ovf |-> FALSE]
              IN /\ S' = IF SwapCauses(S, a) = {} THEN SwapEffect(S, a, << >>) ELSE S
                 /\ nb' = nb + Len(fresh)
-                /\ Record([op |-> "swap", ins |-> InSpecs(ch), outs |-> specs])
+                /\ Record([op |-> "swap", ins |-> InSpecs(ch), outs |-> specs,
+                           x |-> [c |-> SwapCauses(S, a), v |-> <<Len(ins), lock, ksSpec = "active", useOld, Cardinality(DOMAIN S.ks)>>]])
   /\ UNCHANGED <<nmq, nlq>>
 
 Reserve(amt) == (amt + 99) \div 100
@@ -249,31 +251,31 @@ MeltQuoteAct ==
                    ok == MeltQuoteCauses(S, a) = {}
                IN /\ S' = IF ok THEN NewMeltQuote(S, Lq(nlq + 1), a, [amt |-> amt2, reserve |-> Reserve(amt2)]) ELSE S
                   /\ nlq' = nlq + 1
-                  /\ Record(IF frac = 0 THEN [op |-> "meltquote", kind |-> "ext", amt |-> amt]
-                            ELSE [op |-> "meltquote", kind |-> "ext", amt |-> amt2, msat |-> amt * 1000 + frac])
+                  /\ Record(IF frac = 0 THEN [op |-> "meltquote", kind |-> "ext", amt |-> amt, x |-> [c |-> MeltQuoteCauses(S, a), v |-> <<"ext", 0>>]]
+                            ELSE [op |-> "meltquote", kind |-> "ext", amt |-> amt2, msat |-> amt * 1000 + frac, x |-> [c |-> MeltQuoteCauses(S, a), v |-> <<"ext", frac>>]])
        \/ /\ kind = "forged"
           /\ \E t \in Pick(DOMAIN S.mq) :
                \* the model refuses; the ghost id is followed up in case the implementation does not
                /\ S' = S /\ nlq' = nlq + 1
-               /\ Record([op |-> "meltquote", kind |-> "forged", q |-> t, msat |-> 1000])
+               /\ Record([op |-> "meltquote", kind |-> "forged", q |-> t, msat |-> 1000, x |-> [c |-> {}, v |-> <<"forged", EffMq(S.mq[t])>>]])
        \/ /\ kind = "int"
           /\ \E t \in Pick({q \in DOMAIN S.mq : ~\E x \in DOMAIN S.lq : S.lq[x].target = q}) :
                LET a == [kind |-> "int", target |-> t, msat |-> 0, invmsat |-> S.mq[t].amt * 1000, amt |-> S.mq[t].amt, unit |-> "sat"]
                    ok == MeltQuoteCauses(S, a) = {}
                IN /\ S' = IF ok THEN NewMeltQuote(S, Lq(nlq + 1), a, [amt |-> S.mq[t].amt, reserve |-> 0]) ELSE S
                   /\ nlq' = nlq + 1
-                  /\ Record([op |-> "meltquote", kind |-> "int", q |-> t])
+                  /\ Record([op |-> "meltquote", kind |-> "int", q |-> t, x |-> [c |-> MeltQuoteCauses(S, a), v |-> <<"int", EffMq(S.mq[t])>>]])
        \/ /\ kind = "mpp"
           /\ \E ms \in Pick(MppMsats) :
                LET a == [kind |-> "mpp", target |-> "", msat |-> ms, invmsat |-> ms * 2 + 1000, amt |-> ms \div 1000, unit |-> "sat"]
                    ok == MeltQuoteCauses(S, a) = {}
                IN /\ S' = IF ok THEN NewMeltQuote(S, Lq(nlq + 1), a, [amt |-> ms \div 1000, reserve |-> Reserve(ms \div 1000)]) ELSE S
                   /\ nlq' = nlq + 1
-                  /\ Record([op |-> "meltquote", kind |-> "mpp", msat |-> ms])
+                  /\ Record([op |-> "meltquote", kind |-> "mpp", msat |-> ms, x |-> [c |-> MeltQuoteCauses(S, a), v |-> <<"mpp", ms % 1000 = 0>>]])
        \/ /\ kind = "mppint"
           /\ \E t \in Pick(DOMAIN S.mq) :
                /\ S' = S /\ nlq' = nlq + 1
-               /\ Record([op |-> "meltquote", kind |-> "mppint", q |-> t, msat |-> 1000])
+               /\ Record([op |-> "meltquote", kind |-> "mppint", q |-> t, msat |-> 1000, x |-> [c |-> {"mppinternal"}, v |-> <<"mppint", EffMq(S.mq[t]), S.mpp>>]])
   /\ UNCHANGED <<nb, nmq>>
 
 PayAnswers == {"success", "pending", "failed", "error"}
@@ -294,7 +296,8 @@ MeltAct ==
            status == IF pay \in {"failed", "error"} THEN <<st>> ELSE << >>
            a == [q |-> q, ins |-> ins, ln |-> LnCalls(q, pay, status), lnerr |-> FALSE]
        IN /\ S' = IF MeltCauses(S, a) = {} THEN Charge(CHOOSE S2 \in MeltOutcomes(S, a) : TRUE, q, MeltHow(a.ln)) ELSE S
-          /\ Record([op |-> "melt", q |-> q, ins |-> InSpecs(ch), pay |-> <<pay>>, status |-> status])
+          /\ Record([op |-> "melt", q |-> q, ins |-> InSpecs(ch), pay |-> <<pay>>, status |-> status,
+                    x |-> [c |-> MeltCauses(S, a), v |-> <<pay, status, Len(ins), IF q \in DOMAIN S.lq THEN <<S.lq[q].kind, S.lq[q].st>> ELSE <<"ghost", "">> >>]])
   /\ UNCHANGED <<nb, nmq, nlq>>
 
 PollMeltAct ==
@@ -304,7 +307,8 @@ PollMeltAct ==
        /\ S' = IF q \in DOMAIN S.lq /\ S.lq[q].st = "PENDING"
                THEN Charge(CHOOSE S2 \in PollOutcomes(S, q, LnCalls(q, "none", <<st>>)) : TRUE, q, PollHow(LnCalls(q, "none", <<st>>), q))
                ELSE S
-       /\ Record([op |-> "pollmelt", q |-> q, status |-> <<st>>])
+       /\ Record([op |-> "pollmelt", q |-> q, status |-> <<st>>,
+                 x |-> [c |-> {}, v |-> <<st, IF q \in DOMAIN S.lq THEN <<S.lq[q].kind, S.lq[q].st>> ELSE <<"ghost", "">> >>]])
   /\ UNCHANGED <<nb, nmq, nlq>>
 
 CheckStateAct ==
@@ -314,7 +318,7 @@ CheckStateAct ==
        /\ LET q == S.proof[S.sig[b].sec].by
               ln == LnCalls(q, "none", <<st>>)
           IN S' = Charge(CHOOSE S2 \in PollOutcomes(S, q, ln) : TRUE, q, PollHow(ln, q))
-       /\ Record([op |-> "checkstate", ys |-> <<b, "unknown">>, status |-> <<st>>])
+       /\ Record([op |-> "checkstate", ys |-> <<b, "unknown">>, status |-> <<st>>, x |-> [c |-> {}, v |-> <<st>>]])
   /\ UNCHANGED <<nb, nmq, nlq>>
 
 RotateAct ==
@@ -329,7 +333,8 @@ RestartAct ==
   /\ \E rot \in Pick({FALSE, FALSE, TRUE}), fee \in Pick(Fees) :
        /\ rot => Cardinality(DOMAIN S.ks) < 3
        /\ S' = Restart(S, rot, fee)
-       /\ Record([op |-> "restart", rotate |-> rot, fee |-> fee])
+       /\ Record([op |-> "restart", rotate |-> rot, fee |-> fee,
+                 x |-> [c |-> {}, v |-> <<rot, \E q \in DOMAIN S.lq : S.lq[q].st = "PENDING", \E q \in DOMAIN S.mq : EffMq(S.mq[q]) = "PAID">>]])
   /\ UNCHANGED <<nb, nmq, nlq>>
 
 Acts ==
